@@ -398,7 +398,16 @@ def _check_names(seq):
             if NAME_KINDS[ki] == "bmp":
                 img = _mkimage(NAME_SET[ni], {"Width": 1, "Height": 1, "BitsPerComponent": 8, "ColorSpace": LIT("DeviceGray")}, bytes([v]))
             else:
-                img = _mkimage(NAME_SET[ni], {"Width": 1, "Height": 1, "BitsPerComponent": 8, "ColorSpace": LIT("DeviceGray")}, b"\xff\xd8jpeg-%d\xff\xd9" % v, [(LIT("DCTDecode"), None)])
+                # a real stream object; every other one stores its JPEG data behind a second filter (the file must hold the DECODED DCT data)
+                from pdfminer.layout import LTImage
+                from pdfminer.pdftypes import PDFStream
+                jpeg = b"\xff\xd8jpeg-%d\xff\xd9" % v
+                attrs = {"Width": 1, "Height": 1, "BitsPerComponent": 8, "ColorSpace": LIT("DeviceGray")}
+                if i % 2:
+                    st = PDFStream(dict(attrs, Filter=[LIT("ASCIIHexDecode"), LIT("DCTDecode")]), jpeg.hex().encode() + b">")
+                else:
+                    st = PDFStream(dict(attrs, Filter=LIT("DCTDecode")), jpeg)
+                img = LTImage(NAME_SET[ni], st, (0, 0, 1, 1))
             names.append(wr.export_image(img))
         desc = "images named %r exported as %r into one directory" % ([NAME_SET[n] for n, _ in seq], [NAME_KINDS[k] for _, k in seq])
         if len(set(names)) != len(names):
